@@ -887,7 +887,7 @@ Section NetmapReencode.
 
   Lemma upgrade_nodes_spec nodes nn : upgrade_nodes nodes = Halt nn -> nn = map up_node nodes.
   Proof.
-    revert nn. induction nodes as [|n nodes IH]; intros nn H; cbn in H; [congruence|].
+    revert nn. induction nodes as [|n nodes IH]; intros nn H; cbn in H; [injection H as <-; reflexivity|].
     apply obind_halt in H as (b & Hb & H). apply obind_halt in H as (r & Hr & H).
     injection H as <-. cbn. rewrite (IH _ Hr). unfold up_node. rewrite (field0_blob _ _ Hb). reflexivity.
   Qed.
@@ -916,7 +916,7 @@ Section NetmapReencode.
     cbn [obind item_to_list] in H. apply obind_halt in H as (nn & Hnn & H).
     apply upgrade_nodes_spec in Hnn. subst nn.
     destruct nodes as [|n nodes].
-    - left. cbn in H. apply serialize_halt in H as [-> _]. split; [reflexivity|]. split; reflexivity.
+    - left. cbn [map] in H. apply serialize_halt in H as [-> _]. split; [reflexivity|]. split; reflexivity.
     - right. split; [discriminate|]. cbn [map] in H. apply serialize_halt in H as [-> Hc'].
       apply deserialize_ser; [|exact Hc']. exact (wf_up_nodes (n :: nodes) Hwf).
   Qed.
@@ -1026,7 +1026,7 @@ Section NetmapReencode.
     forall k d, (k, d) ∈ l -> exists d', upgrade_candidate d = Halt d' /\ s' !! k = Some d'.
   Proof.
     induction l as [|[k0 d0] l IH]; intros s s' Hnd H k d Hin; [inversion Hin|].
-    cbn [fold_left] in H. apply NoDup_cons in Hnd as [Hk0 Hnd].
+    cbn [fold_left] in H. apply NoDup_cons in Hnd as [Hk0 Hnd]. cbn [fst] in Hk0.
     destruct (cand_step (Halt s) (k0, d0)) as [s1|] eqn:E;
       [|rewrite fold_left_fault in H by reflexivity; discriminate].
     apply elem_of_cons in Hin as [[= -> ->]|Hin].
@@ -1044,3 +1044,115 @@ Section NetmapReencode.
     apply (cand_fold_spec _ _ _ (NoDup_sfind_keys _ _) H). apply elem_of_sfind. auto.
   Qed.
 End NetmapReencode.
+
+(** * NNS below 0.18: TLD owners become nil *)
+
+Section NNS.
+  Context (h160 : bytes -> bytes).
+  Context (prevN verN : Z).
+
+  (** Keys the NNS upgrade may write or delete: balances (0x01), the
+      owner->token index (0x02) and name states (0x21). *)
+  Definition nns_touched (q : bytes) : bool :=
+    match q with
+    | x :: _ => (x =? p_nns_balance)%N || (x =? p_nns_acctoken)%N || (x =? p_nns_name)%N
+    | [] => false
+    end.
+
+  (** Outcome of one name state [d] stored under [k]. *)
+  Definition nns_entry (d : bytes) (before after : option bytes) : Prop :=
+    exists it fs nm name,
+      deserialize d = Halt it /\ item_to_list it = Halt fs /\ onth fs 1 = Halt nm /\
+      field_bytes nm = Halt name /\
+      if is_tld name then
+        exists d', serialize (match it with IArray _ => IArray (INull :: tail fs) | _ => IStruct (INull :: tail fs) end) = Halt d' /\
+                   after = Some d'
+      else after = before.
+
+  Lemma nns_update_balance_frame token acc s s' (q : bytes) :
+    nns_update_balance_dec h160 token acc s = Halt s' ->
+    head q <> Some p_nns_balance -> head q <> Some p_nns_acctoken -> s' !! q = s !! q.
+  Proof.
+    unfold nns_update_balance_dec. intros H H1 H2.
+    apply obind_halt in H as (bal & _ & H). apply obind_halt in H as (nb & _ & H).
+    apply obind_halt in H as (s1 & Hs1 & H). injection H as <-. unfold sdel.
+    rewrite lookup_delete_ne by (intros <-; apply H2; reflexivity).
+    destruct (nb =? 0).
+    - injection Hs1 as <-. unfold sdel. apply lookup_delete_ne. intros <-. apply H1. reflexivity.
+    - apply sput_halt in Hs1 as [-> _]. apply lookup_insert_ne. intros <-. apply H1. reflexivity.
+  Qed.
+
+  Lemma nns_step_spec s k d s1 :
+    nns_step h160 (Halt s) (k, d) = Halt s1 -> head k = Some p_nns_name ->
+    (forall q : bytes, head q <> Some p_nns_balance -> head q <> Some p_nns_acctoken -> q <> k -> s1 !! q = s !! q) /\
+    nns_entry d (s !! k) (s1 !! k).
+  Proof.
+    unfold nns_step. cbn [fst snd obind]. intros H Hk.
+    apply obind_halt in H as (it & Hit & H). apply obind_halt in H as (fs & Hfs & H).
+    apply obind_halt in H as (ow & How & H). apply obind_halt in H as (nm & Hnm & H).
+    apply obind_halt in H as (name & Hname & H).
+    destruct (is_tld name) eqn:Et.
+    - apply obind_halt in H as (owner & _ & H). apply obind_halt in H as (s0 & Hs0 & H).
+      apply obind_halt in H as (nd & Hnd & H). apply sput_halt in H as [-> _]. split.
+      + intros q Hq1 Hq2 Hne. rewrite lookup_insert_ne by congruence.
+        exact (nns_update_balance_frame _ _ _ _ _ Hs0 Hq1 Hq2).
+      + exists it, fs, nm, name. rewrite Et. repeat (split; [assumption|]).
+        exists nd. split; [exact Hnd|apply lookup_insert].
+    - injection H as <-. split; [reflexivity|].
+      exists it, fs, nm, name. rewrite Et. auto.
+  Qed.
+
+  Lemma nns_fold_spec l : forall s s',
+    NoDup (map fst l) -> Forall (fun kv => head (fst kv) = Some p_nns_name) l ->
+    fold_left (nns_step h160) l (Halt s) = Halt s' ->
+    (forall q : bytes, head q <> Some p_nns_balance -> head q <> Some p_nns_acctoken -> q ∉ map fst l -> s' !! q = s !! q) /\
+    (forall k d, (k, d) ∈ l -> nns_entry d (s !! k) (s' !! k)).
+  Proof.
+    induction l as [|[k0 d0] l IH]; intros s s' Hnd Hall H.
+    - cbn in H. injection H as <-. split; [reflexivity|]. intros k d Hin. inversion Hin.
+    - cbn [fold_left] in H. apply NoDup_cons in Hnd as [Hk0 Hnd]. cbn [fst] in Hk0.
+      apply Forall_cons in Hall as [Hh0 Hall]. cbn [fst] in Hh0.
+      destruct (nns_step h160 (Halt s) (k0, d0)) as [s1|] eqn:E;
+        [|rewrite fold_left_fault in H by reflexivity; discriminate].
+      destruct (nns_step_spec _ _ _ _ E Hh0) as [Hfr Hent].
+      destruct (IH _ _ Hnd Hall H) as [IHfr IHent].
+      assert (Hname_ne : forall q : bytes, head q = Some p_nns_name ->
+                head q <> Some p_nns_balance /\ head q <> Some p_nns_acctoken).
+      { intros q Hq. rewrite Hq. split; discriminate. }
+      split.
+      + intros q Hq1 Hq2 Hq. rewrite IHfr by (try assumption; intros Hin; apply Hq; right; exact Hin).
+        apply Hfr; try assumption. intros ->. apply Hq. left.
+      + intros k d [[= -> ->]|Hin]%elem_of_cons.
+        * destruct (Hname_ne _ Hh0) as [Hn1 Hn2]. rewrite (IHfr k0 Hn1 Hn2 Hk0). exact Hent.
+        * assert (Hhk : head k = Some p_nns_name).
+          { rewrite Forall_forall in Hall. exact (Hall _ Hin). }
+          destruct (Hname_ne _ Hhk) as [Hn1 Hn2].
+          assert (Hne : k <> k0).
+          { intros ->. apply Hk0. apply elem_of_list_fmap. exists (k0, d). auto. }
+          rewrite <- (Hfr k Hn1 Hn2 Hne). exact (IHent _ _ Hin).
+  Qed.
+
+  Lemma is_prefix_head x (k : bytes) : is_prefix [x] k = true -> head k = Some x.
+  Proof. destruct k as [|y k]; cbn; [discriminate|]. rewrite andb_true_r. intros ->%N.eqb_eq. reflexivity. Qed.
+
+  Lemma deploy_nns_spec e args s s' v :
+    deploy_nns h160 prevN verN e args s = Halt s' -> args_version args = Halt v -> v < 18000 ->
+    (forall q : bytes, nns_touched q = false -> s' !! q = s !! q) /\
+    (forall k d, s !! k = Some d -> head k = Some p_nns_name -> nns_entry d (Some d) (s' !! k)).
+  Proof.
+    unfold deploy_nns. intros H Hv Hlt. rewrite Hv in H. cbn [obind] in H.
+    apply obind_halt in H as (u & _ & H). destruct (Z.geb_spec v 18000); [lia|].
+    apply nns_fold_spec in H as [Hfr Hent].
+    - split.
+      + intros q Hq. apply Hfr.
+        * destruct q as [|x q]; [discriminate|]. cbn in Hq |- *. intros [= ->]. discriminate.
+        * destruct q as [|x q]; [discriminate|]. cbn in Hq |- *. intros [= ->]. discriminate.
+        * intros Hin. apply elem_of_list_fmap in Hin as ([k d] & -> & Hin). apply elem_of_sfind in Hin as [_ Hp].
+          apply is_prefix_head in Hp. cbn [fst] in Hq. destruct k as [|x k]; [discriminate|].
+          cbn in Hp. injection Hp as ->. discriminate.
+      + intros k d Hk Hh. rewrite <- Hk. apply Hent. apply elem_of_sfind. split; [exact Hk|].
+        destruct k as [|x k]; [discriminate|]. cbn in Hh. injection Hh as ->. reflexivity.
+    - apply NoDup_sfind_keys.
+    - apply Forall_forall. intros [k d] Hin. apply elem_of_sfind in Hin as [_ Hp]. exact (is_prefix_head _ _ Hp).
+  Qed.
+End NNS.
